@@ -135,7 +135,7 @@ def run(ctx):
                        "event sequences")
     ctx.assumptions += ["tags that spell the current (id, serial) differently (leading zeros, upper case) are not generated (DESIGN.md 9)"]
     if ctx.tier == "quick":
-        st = R.standard(ctx, [R.Plan("qr", "S_q1", emit_mod=120, max_inst=2, max_pw=1, stray=1, also=R.crowd_also(250) + R.wrap_also(8)),
+        st = R.standard(ctx, [R.Plan("qr", "S_q1", emit_mod=180, max_inst=2, max_pw=1, stray=1, also=R.crowd_also(200) + R.wrap_also(6)),
                               # one service name is a prefix of the other; an entry with an unknown protocol word
                               R.Plan("pref", "S_pref", emit_mod=200, max_inst=1, max_pw=2, stray=1)], OWN,
                         need=("replies", "accept_D", "accept_R"))
